@@ -110,7 +110,17 @@ class PGen(object):
         if self.faults and rng.random() < 0.2:
             clock = p.current_dt
             earlier = str(clock - pd.Timedelta(rng.choice([pd.Timedelta(microseconds=1), pd.Timedelta(days=1)])))
-            k = rng.choice(['sub_back', 'sub_neg', 'wd_back', 'wd_neg', 'wd_over', 'txn_back', 'mark_neg', 'mark_back'])
+            k = rng.choice(['sub_back', 'sub_neg', 'wd_back', 'wd_neg', 'wd_over', 'txn_back', 'mark_neg', 'mark_back',
+                            'txn_behind_pos', 'txn_behind_pos', 'mark_behind_pos'])
+            if k in ('txn_behind_pos', 'mark_behind_pos'):
+                cands = [(a, p.pos_handler.positions[a].current_dt) for a in held
+                         if p.pos_handler.positions[a].current_dt > clock]
+                if cands:
+                    a, pclock = rng.choice(cands)
+                    between = str(clock + (pclock - clock) * rng.choice([0.0, 0.5, 0.999]))
+                    if k == 'mark_behind_pos':
+                        return ['pf_mark', 'P', a, bw.rand_price(rng), between]
+                    return ['pf_txn', 'P', between, a, rng.choice([-7, 11, 250]), bw.rand_price(rng), 0.5, 'bad']
             amt = bw.rand_amount(rng) + 0.01
             if k == 'sub_back':
                 return ['pf_sub', 'P', earlier, amt]
